@@ -386,6 +386,14 @@ def matrix_forms(m):
     # (np.matrix is not used: the documented input is a numpy array, and np.matrix changes the meaning of indexing and *)
     if np.all(a == np.round(a)) and np.all(np.abs(a) < 2 ** 31):
         out.append(('int64', a.astype(np.int64)))
+        out.append(('int32', a.astype(np.int32)))
+        if np.all(np.abs(a) < 2 ** 15):
+            out.append(('int16', a.astype(np.int16)))
+        if np.all(a >= 0):
+            out.append(('uint64', a.astype(np.uint64)))
+            out.append(('uint32', a.astype(np.uint32)))
+            if np.all(a < 256):
+                out.append(('uint8', a.astype(np.uint8)))
     if np.all(a.astype(np.float32).astype(float) == a):
         out.append(('float32', a.astype(np.float32)))
     return out
